@@ -122,14 +122,20 @@ def sections(ctx, out):
         text = "\n".join(["[Song]", "{", "  Resolution = 192", "}", "[SyncTrack]", "{", "  0 = TS 4", "  0 = B 120000", "}", "[Events]", "{", "}",
                           "[ExpertSingle]", "{"] + body + ["}"]) + "\n"
         cases.append((text, body))
-    a, b = common.run_charts([(t, None) for t, _ in cases])
-    for (text, body), x, y in zip(cases, a, b):
+    from .. import impl as _impl
+    nsib = ctx.n(30, 600)
+    with _impl.all_siblings():   # the first texts each after every damaged sibling of theirs (a failed parse leaves nothing behind)
+        a0 = [_impl.run_chart(t, None) for t, _ in cases[:nsib]]
+    a, b = common.run_charts([(t, None) for t, _ in cases[nsib:]])
+    a = a0 + a
+    b = common.driver.run_parallel([f"chart {common.driver.cps(t)} ~" for t, _ in cases[:nsib]]) + b
+    for k_, ((text, body), x, y) in enumerate(zip(cases, a, b)):
         specs = [(lc.spec("note", l), lc.spec("sp", l), lc.spec("te", l)) for l in body]
         notes = [s[0] for s in specs if s[0] != "none"]
         sps = [s[1] for s in specs if s[0] == "none" and s[1] != "none"]
         tes = [s[2] for s in specs if s[0] == "none" and s[1] == "none" and s[2] != "none"]
         warn = sum(1 for s in specs if s == ("none", "none", "none"))
-        rp = {**common.chart_replay(text), "section": True}
+        rp = {**common.chart_replay(text), "section": True, "siblings": k_ < nsib}
         out.case("S" + fw.h(text), True, None, tags=["section-with-twins"])
         out.traces += 1
         if common.framing_proj(x) != common.framing_proj(y):
@@ -159,7 +165,11 @@ def replay(ctx, data):
     if data["op"] == "line":
         return lc.replay(data)
     if data["op"] == "chart" and data.get("section"):
-        x = impl.run_chart(data["text"])
+        if data.get("siblings"):
+            with impl.all_siblings():
+                x = impl.run_chart(data["text"])
+        else:
+            x = impl.run_chart(data["text"])
         d = gen.parse_dump(x)
         if d["err"] is not None:
             return False, x
